@@ -113,6 +113,10 @@ def export(src):
         return out
 
     def toks(s):
+        if isinstance(s, ast.AugAssign) and not isinstance(s.target, ast.Name):
+            # Python evaluates the sub-expressions of the target before the value: the target is an operand
+            return [1, T("stmt:augx:" + type(s.op).__name__), 3, T("op:augtarget"), 2,
+                    1, T("atom:" + ast.unparse(s.target))] + skeleton_expr(s.value, T)
         if isinstance(s, (ast.Assign, ast.AugAssign, ast.Expr)):
             return [1, T("stmt:" + stmt_frame(s))] + skeleton_expr(s.value, T)
         if isinstance(s, ast.Pass):
@@ -172,6 +176,9 @@ def export(src):
                 if i.value is None:
                     return [3, T("stmt:return"), 0]
                 return [3, T("stmt:return"), 1] + residual(i.value, T)
+            if isinstance(i, ast.AugAssign) and not isinstance(i.target, ast.Name):
+                return [1, T("stmt:augx:" + type(i.op).__name__), 3, T("op:augtarget"), 2,
+                        1, T("atom:" + ast.unparse(i.target))] + residual(i.value, T)
             return [1, T("stmt:" + stmt_frame(i))] + residual(i.value, T)
         # generated by the transformer
         if isinstance(i, ast.Return) and i.value is None:
